@@ -210,10 +210,22 @@ func shortestEditSequence(a, b []string) ([][]int, int) {
 	return nil, 0
 }
 
+// splitLines splits text after every line terminator. The language server
+// protocol counts '\n', '\r\n' and a lone '\r' as line terminators, and the line
+// numbers of the edits computed from these lines must count lines the same way.
 func splitLines(text string) []string {
-	lines := strings.SplitAfter(text, "\n")
-	if lines[len(lines)-1] == "" {
-		lines = lines[:len(lines)-1]
+	lines := make([]string, 0, strings.Count(text, "\n")+1)
+	start := 0
+
+	for i := range len(text) {
+		if text[i] == '\n' || (text[i] == '\r' && (i+1 == len(text) || text[i+1] != '\n')) {
+			lines = append(lines, text[start:i+1])
+			start = i + 1
+		}
+	}
+
+	if start < len(text) {
+		lines = append(lines, text[start:])
 	}
 
 	return lines
